@@ -104,12 +104,22 @@ type Exec struct {
 	All  []*common.Violation
 	S    *Suite
 	mem  bytes.Buffer
+	dir  string // FileStore: directory of this execution
 }
+
+// ScratchDir returns a fresh directory for one execution of a suite that runs
+// on the real file-backed storages (Cfg.FileStore).
+var ScratchDir func() string
 
 func NewExec(s *Suite) (*Exec, *common.Violation) {
 	x := &Exec{S: s}
 	if s.Boot != nil {
 		x.C = s.Boot(s.Budget)
+	} else if s.Cfg.FileStore {
+		cfg := s.Cfg
+		cfg.Dir = ScratchDir()
+		x.dir = cfg.Dir
+		x.C = sim.New(cfg, s.Budget)
 	} else {
 		x.C = sim.New(s.Cfg, s.Budget)
 	}
@@ -202,7 +212,13 @@ func (x *Exec) Key() [16]byte {
 	return x.C.Key(x.mem.Bytes())
 }
 
-func (x *Exec) Close() { x.C.Teardown() }
+func (x *Exec) Close() {
+	x.C.Teardown()
+	if x.dir != "" {
+		x.C.RemoveIntercept()
+		os.RemoveAll(x.dir)
+	}
+}
 
 // DFS explores everything reachable from prefix (events applied after the
 // suite's seed) within the suite's budgets.
